@@ -51,6 +51,27 @@ func checkC18(c *Ctx) {
 	{
 		okSwap := false
 		detail := "no swap callback found"
+		// the list being shuffled: the field whose length is given to (*rand.Rand).Shuffle
+		listField := kGen + "leadersPartitions"
+		{
+			ks := NewKeyer(p, sh)
+			eachInstr(sh, func(in ssa.Instruction) {
+				call, ok := in.(*ssa.Call)
+				if !ok || call.Call.StaticCallee() == nil || call.Call.StaticCallee().String() != "(*math/rand.Rand).Shuffle" || len(call.Call.Args) < 3 {
+					return
+				}
+				nk := ks.Key(call.Call.Args[1])
+				if strings.HasPrefix(nk, "builtin len(") {
+					x := nk[len("builtin len("):]
+					if i := strings.Index(x, ")"); i > 0 {
+						x = x[:i]
+					}
+					if j := strings.LastIndex(x, "->"); j >= 0 && strings.HasPrefix(x[j+2:], kGen) {
+						listField = x[j+2:]
+					}
+				}
+			})
+		}
 		for _, cl := range Closures(sh) {
 			k := NewKeyer(p, cl)
 			var stores [][2]string
@@ -61,7 +82,7 @@ func checkC18(c *Ctx) {
 					return
 				}
 				ia, ok := st.Addr.(*ssa.IndexAddr)
-				if !ok || !strings.HasSuffix(k.Key(ia.X), kGen+"leadersPartitions") {
+				if !ok || !strings.HasSuffix(k.Key(ia.X), listField) {
 					other++
 					return
 				}
